@@ -278,8 +278,18 @@ func (e *Env) Flush(id string, ready time.Duration) error {
 		if !strings.Contains(err.Error(), "not currently able to synchronize") || time.Now().After(deadline) {
 			return err
 		}
+		// A session halted for safety never becomes able to synchronize by
+		// itself: do not wait for it.
+		if st := e.State(id); st != nil && Halted(st.Status) {
+			return err
+		}
 		time.Sleep(2 * time.Millisecond)
 	}
+}
+
+// Halted tells whether a status is one of the halted-for-safety statuses.
+func Halted(s synchronization.Status) bool {
+	return s == synchronization.Status_HaltedOnRootEmptied || s == synchronization.Status_HaltedOnRootDeletion || s == synchronization.Status_HaltedOnRootTypeChange
 }
 
 // FlushNoWait issues a flush that does not wait for the cycle.
